@@ -115,6 +115,9 @@ def _gen_params(rng, p, opts):
             es = sorted(set(_dy(rng, -3.0, 3.0, 0.25) for _ in range(n + 1)))[:n]
         else:
             es = sorted(set(rng.pick([-1e6, -3.3, -0.1, 0.0, 0.1, 0.3, 1.0 / 3.0, 0.7, 1.1, 2.5, 1e6]) for _ in range(n + 1)))[:n]
+        if p == "Stack" and len(es) > 1 and rng.chance(0.2):
+            # Stack neither sorts nor validates its thresholds: every cut is tested on its own
+            es = list(reversed(es)) if rng.chance(0.5) else es[1:] + es[:1]
         out["edges" if p == "IrregularlyBin" else "thresholds"] = es
     elif p == "Bag":
         out["range"] = rng.pick(opts["bag_ranges"])
